@@ -296,6 +296,7 @@ class CVIART(BaseART):
                 )
                 self.labels_[index] = c
                 self.post_step_fit(X)
+        return self
 
     def pre_step_fit(self, X: np.ndarray):
         """Preprocessing step before fitting each sample.
